@@ -506,6 +506,11 @@ def worker_single(rec, shard, nshards, scratch, max_rows, thorough, seed):
             rows = [{"onset": str(1.0 + 0.5 * i), "duration": (durs + ("0.5",))[i], "trial_type": tt[i], "code": "1",
                      "response_time": "0.3"} for i in range(len(tt))]
             runs.append((tabs[0][0], rows))
+    # two runs of the event code side by side that differ in a match column, the second one longer than one row
+    for code in (("1", "1", "2", "2", "2"), ("1", "2", "2"), ("1", "1", "1", "2", "2"), ("2", "2", "1", "1", "2")):
+        rows = [{"onset": str(1.0 + 1.5 * i), "duration": "0.5", "trial_type": "a", "code": code[i], "response_time": "0.3"}
+                for i in range(len(code))]
+        runs.append((tabs[0][0], rows))
     base = len(tabs)
     tabs = tabs + runs
     cases += [(i, base + j) for i in range(len(psets)) if psets[i]["operation"] == "merge_consecutive"
